@@ -71,7 +71,11 @@ def _iana_jobs(seed):
         langs = [l.strip() for l in langs]
         cols = ["type", "name"] + [f"label::{l}" for l in langs] + (["label"] if i % 3 == 0 else [])
         wb = {"sheets": [{"name": "survey", "header": cols, "rows": [["text", "q1"] + [f"t{j}" for j in range(len(cols) - 2)]]}]}
-        names = list(langs) + (["default"] if i % 3 == 0 else [])
+        # a declared default language is a language like any other (its name still needs a code); the unsuffixed column then belongs to it
+        dl = langs[0] if i % 4 == 1 else None
+        if dl:
+            wb["sheets"].append({"name": "settings", "header": ["default_language"], "rows": [[dl]]})
+        names = list(langs) + (["default"] if i % 3 == 0 and not dl else [])
         facts = []
         for n in names:
             m = re.search(r"\((.*)\)$", n)
@@ -137,8 +141,6 @@ def run(rep):
     rep.extra.setdefault("trace_runs", []).append({"source": "all four parts", "traces": len(outs), "accepted": len(acc), "tlc_states": info["distinct"], "wall_s": round(info["wall"], 1)})
     nsim = sum(1 for o in outs if o["job"]["kind"] == "sheetname" and o["trace"][0]["obs"]["similar"])
     rep.extra["sheetname_notices_observed"] = nsim
-    if nsim == 0:
-        raise tlc.MachineryError("vacuity: no similar-sheet notice observed")
     for i, o in enumerate(outs):
         rep.case(o["job"], nontrivial=True)
         if i in acc:
@@ -172,6 +174,8 @@ def run(rep):
     if wrongly or len(cans) not in a:
         raise tlc.MachineryError(f"canary failure: accepted {wrongly}; control accepted={len(cans) in a}")
     rep.extra["canaries_rejected"] = [c[0] for c in cans]
+    if nsim == 0 and not rep.violations:      # (with violations recorded, they are the verdict)
+        raise tlc.MachineryError("vacuity: no similar-sheet notice observed")
 
 
 def replay(rep, case):
